@@ -76,6 +76,8 @@ type output struct {
 	SegAllCuts   int64          `json:"values_with_every_2_segment_cut"`
 	SegDirected  int64          `json:"values_with_boundary_directed_cuts"`
 	Seg3         int64          `json:"values_with_every_3_segment_cut_pair"`
+	SegSingle    int64          `json:"values_parsed_as_all_1_byte_segments"`
+	SegSpan      int64          `json:"single_value_spanning_3_or_4_segments_parses"`
 	SegLimits    string         `json:"segmentation_bounds"`
 	Distinct     int            `json:"distinct_encodings"`
 	Phase1Done   bool           `json:"phase1_complete"`
@@ -451,9 +453,15 @@ func evalCase(c *caseID, o evalOpts, st *modelStat) bool {
 		val   []byte
 	}
 	vars := []variant{{false, nonCritEven, insVal}, {false, nonCritLowest, nil}, {true, critLowEven, insVal}, {true, critOddHigh, nil}}
+	if o.thorough || len(b) <= 512 {
+		// 9-octet type numbers (2^32 .. 2^64-1); for long encodings only in the thorough tier
+		// (skipping an unknown element does not depend on the size of its neighbours)
+		vars = append(vars, variant{false, nonCrit9, insVal}, variant{true, crit9, nil})
+	}
 	if o.thorough {
 		big := pattern(300, 0x55)
-		vars = append(vars, variant{false, nonCritWide, big}, variant{true, critOddWide, big})
+		vars = append(vars, variant{false, nonCritWide, big}, variant{true, critOddWide, big},
+			variant{false, nonCrit9[1:], nil}, variant{true, crit9[1:], insVal})
 	}
 	for pi := range pts {
 		ip := &pts[pi]
@@ -624,8 +632,9 @@ func main() {
 	}
 	out.Values, out.Pairs, out.Parses, out.Points, out.Insertions = nValues, nPairs, nParses, nPoints, nIns
 	out.SegParses, out.SegAllCuts, out.SegDirected, out.Seg3 = nSegParses, nSegAll, nSegDirected, nSeg3
+	out.SegSingle, out.SegSpan = nSegSingle, nSegSpan
 	a2, a3 := segLimits(thorough)
-	out.SegLimits = fmt.Sprintf("every 2-segment cut for encodings <= %d bytes, boundary-directed cuts (first/last 8 offsets, every element start/value-start/end of every nesting level and its two neighbours, the midpoint of every element value, every 1/16 of the length) above; every 3-segment cut pair for encodings <= %d bytes; plus the wire exactly as Encode() returned it", a2, a3)
+	out.SegLimits = fmt.Sprintf("every 2-segment cut for encodings <= %d bytes, boundary-directed cuts (first/last 8 offsets, every element start/value-start/end of every nesting level and its two neighbours, the midpoint of every element value, every 1/16 of the length) above; every 3-segment cut pair for encodings <= %d bytes; plus the wire exactly as Encode() returned it, the all-1-byte-segments wire for encodings <= 4096 bytes, and for every opaque element value of >= 3 bytes at every nesting level 2 and 3 cuts strictly inside the value (byte-like values: all pairs <= 12 bytes, all triples <= 8 bytes; numbers and longer values: first+1/middle/last-1)", a2, a3)
 	out.Distinct = len(distinct)
 	out.Samples = samples
 	out.RawViolation = nRaw
@@ -784,7 +793,51 @@ func explain(all []*rec) []*rec {
 
 // ---- segmented readers -----------------------------------------------------------------------
 
-var nSegParses, nSegAll, nSegDirected, nSeg3 int64
+var nSegParses, nSegAll, nSegDirected, nSeg3, nSegSingle, nSegSpan int64
+
+// spans enumerates cut sets that lie strictly inside the value of one opaque element.
+func spans(lv *level, base int, f func(cuts []int)) {
+	for _, e := range lv.elems {
+		if e.sub != nil {
+			spans(e.sub, base+e.val, f)
+			continue
+		}
+		lo, hi := base+e.val+1, base+e.end-1 // inside positions lo..hi
+		l := e.end - e.val
+		if l < 3 {
+			continue
+		}
+		numeric := false // numbers are read octet by octet: the selected cuts suffice
+		if fs := lv.model.byType[e.typ]; len(fs) > 0 {
+			k := fs[0].td.k
+			if k == kSeq {
+				k = fs[0].td.elem.k
+			}
+			numeric = k == kNat || k == kFixed || k == kTime
+		}
+		if l <= 12 && !numeric {
+			for c1 := lo; c1 <= hi; c1++ {
+				for c2 := c1 + 1; c2 <= hi; c2++ {
+					f([]int{c1, c2})
+					if l <= 8 {
+						for c3 := c2 + 1; c3 <= hi; c3++ {
+							f([]int{c1, c2, c3})
+						}
+					}
+				}
+			}
+			if l > 8 && hi-lo >= 2 {
+				f([]int{lo, (lo + hi) / 2, hi})
+			}
+			continue
+		}
+		mid := (lo + hi) / 2
+		f([]int{lo, mid})
+		f([]int{lo, hi})
+		f([]int{mid, hi})
+		f([]int{lo, mid, hi})
+	}
+}
 
 func segLimits(thorough bool) (all2, all3 int) {
 	if thorough {
@@ -943,6 +996,29 @@ func segmented(c *caseID, m *Model, e encoded, lv *level, thorough bool) {
 			parse(enc.Wire{b[:cut], b[cut:]}, "2 segments", cut)
 		}
 	}
+	// all-singletons: every byte its own segment (every value spans as many segments as it has bytes)
+	if n <= 4096 {
+		atomic.AddInt64(&nSegSingle, 1)
+		w := make(enc.Wire, n)
+		for i := range w {
+			w[i] = b[i : i+1]
+		}
+		parse(w, "every byte in its own segment", -1)
+	}
+	// one value spanning 3 and 4 segments: two / three cuts strictly inside the value of every
+	// opaque element of every nesting level (all cut pairs for values up to 12 bytes and all
+	// cut triples up to 8 bytes; first+1 / middle / last-1 for longer values)
+	spans(lv, 0, func(cuts []int) {
+		atomic.AddInt64(&nSegSpan, 1)
+		w := make(enc.Wire, 0, len(cuts)+1)
+		prev := 0
+		for _, c := range cuts {
+			w = append(w, b[prev:c])
+			prev = c
+		}
+		w = append(w, b[prev:])
+		parse(w, fmt.Sprintf("one value spanning %d segments", len(cuts)+1), cuts[0])
+	})
 	if n <= all3 {
 		atomic.AddInt64(&nSeg3, 1)
 		for c1 := 1; c1 < n-1; c1++ {
